@@ -20,6 +20,9 @@ type MuxStep struct {
 	Which  int    `json:",omitempty"`
 	Err    bool   `json:",omitempty"` // reply with an error reply
 	NoWait bool   `json:",omitempty"`
+	// call: the call fails before anything is written: "precancel" = its context is already
+	// cancelled, "bigwalk" = a Twalk that cannot fit in msize
+	Local string `json:",omitempty"`
 }
 
 type MuxCase struct {
@@ -40,6 +43,9 @@ func GenMux(t *rapid.T) MuxCase {
 		switch st.Op {
 		case "call":
 			st.Kind = rapid.SampledFrom(callKinds).Draw(t, "kind")
+			if rapid.IntRange(0, 6).Draw(t, "local") == 0 {
+				st.Local = rapid.SampledFrom([]string{"precancel", "bigwalk"}).Draw(t, "localkind")
+			}
 		case "reply":
 			st.Err = rapid.IntRange(0, 4).Draw(t, "err") == 0
 		}
@@ -90,7 +96,7 @@ func (e *muxEngine) absorb(cond func() bool) error {
 		}
 		var p *pending
 		for _, q := range e.all {
-			if q.marker == mk && !q.seen {
+			if q.marker == mk && (!q.seen || (q.local && !q.arrived)) {
 				p = q
 			}
 		}
@@ -113,6 +119,9 @@ func (e *muxEngine) absorb(cond func() bool) error {
 			}
 		}
 		p.tag, p.seen = f.Msg.Tag, true
+		if p.local {
+			p.arrived, p.abandoned = true, true
+		}
 		e.held = append(e.held, p)
 	}
 	return nil
@@ -161,7 +170,7 @@ func RunMux(c MuxCase) harn.Result {
 		err bool
 	}
 	var toCheck []owed
-	maxOut, outOfOrder, abandonedAnswered := 0, false, false
+	maxOut, outOfOrder, abandonedAnswered, localFailed := 0, false, false, false
 	barrier := func() error {
 		if err := e.absorb(func() bool {
 			for _, p := range e.all {
@@ -185,6 +194,29 @@ func RunMux(c MuxCase) harn.Result {
 		switch st.Op {
 		case "call":
 			next++
+			if st.Local != "" {
+				// a call that fails locally while others are pending: it must return an error
+				// promptly and must not disturb the pending ones
+				var p *pending
+				if st.Local == "precancel" {
+					ctx, cancel := context.WithCancel(context.Background())
+					cancel()
+					p = r.startCtx(st.Kind, next, ctx, cancel)
+				} else {
+					p = r.start("bigwalk", next)
+				}
+				p.local, p.seen = true, true
+				e.all = append(e.all, p)
+				e.trace = append(e.trace, fmt.Sprintf("call %s m%#x failing locally (%s)", p.kind, next, st.Local))
+				localFailed = true
+				if !p.wait(bound) {
+					return harn.Result{Err: e.fail("call %s (marker %#x) that cannot be sent (%s) did not return within %v", p.kind, p.marker, st.Local, bound)}
+				}
+				if p.res.err == nil {
+					return harn.Result{Err: e.fail("call %s (marker %#x) that cannot be sent (%s) returned success", p.kind, p.marker, st.Local)}
+				}
+				continue
+			}
 			p := r.start(st.Kind, next)
 			e.all = append(e.all, p)
 			e.trace = append(e.trace, fmt.Sprintf("call %s m%#x", st.Kind, next))
@@ -292,6 +324,9 @@ func RunMux(c MuxCase) harn.Result {
 	}
 	if abandonedAnswered {
 		res.Classes = append(res.Classes, "abandoned_answered_late")
+	}
+	if localFailed {
+		res.Classes = append(res.Classes, "local_failure_among_pending")
 	}
 	for _, p := range e.all {
 		if p.abandoned && !p.answered {
